@@ -69,6 +69,8 @@ def setup_call(scheme, static=False, value=None):
     ex.code[CALLEE] = callee_code
     ex.storage[CALLEE] = sevm.mk_storagedata()
     ex.transient_storage[CALLEE] = sevm.mk_storagedata()
+    # the caller's own storage is arbitrary (svm.enableSymbolicStorage): a marker every copy/restore has to keep
+    ex.storage[THIS].symbolic = True
     ex.st.memory.set_slice(0, 4, ByteVec(b"\xde\xad\xbe\xef"))
     V = z3.BitVec("call_value", 256) if value is None else value
     args = [word(z3.BitVec("gas", 256)), word(z3.ZeroExt(96, CALLEE))]
@@ -416,12 +418,15 @@ def create_cases():
                 ctx = interp.ctx
                 sevm = mk_sevm()
                 ex = mk_ex(sevm, bytes([op, 0x00]))
+                ex.storage[THIS].symbolic = True  # arbitrary storage: a marker every copy/restore has to keep
                 init = bytes([0x60, 0x00, 0x60, 0x00, 0xF3])
                 ex.st.memory.set_slice(0, len(init), ByteVec(init))
+                # constructor arguments: a symbolic word after the concrete init code (two chunks, as solc lays it out)
+                ex.st.memory.set_word(len(init), z3.BitVec("constructor_argument", 256))
                 V = z3.BitVec("endowment", 256)
                 marker = hb.HalmosBitVec(0xBEEF)
                 ex.st.stack.append(marker)
-                ops = [word(V), word(0), word(len(init))] + ([word(z3.BitVec("salt", 256))] if op == hs.OP_CREATE2 else [])
+                ops = [word(V), word(0), word(len(init) + 32)] + ([word(z3.BitVec("salt", 256))] if op == hs.OP_CREATE2 else [])
                 for a in reversed(ops):
                     ex.st.stack.append(a)
                 ex.fetch_instruction()
@@ -437,6 +442,8 @@ def create_cases():
                 new_addr = m.target
                 ctx.oblige("creation frame: sender is the creating contract, value is the endowment, never static, runs the init code", z3.And(z3.BoolVal(m.is_static is False and m.call_scheme == op and sub.pc == 0 and sub.st.stack == []), (m.caller if not hasattr(m.caller, "as_z3") else m.caller.as_z3()) == THIS, (m.value.as_z3() if hasattr(m.value, "as_z3") else m.value) == V))
                 ctx.oblige("the new account exists with empty code and empty storage while the init code runs, at an address different from every existing account", z3.BoolVal(new_addr in ex.code and len(ex.code[new_addr]) == 0 and new_addr in ex.storage and str(new_addr) not in pre.code_keys))
+                pg = sub.pgm
+                ctx.oblige("the creation frame runs the init code as the byte sequence it is in memory (concrete prefix kept concrete, so its jump destinations are found), for CREATE and CREATE2 alike", z3.BoolVal(len(pg) == len(init) + 32 and pg._fastcode is not None and bytes(pg._fastcode) == init and pg[0] == init[0]), info={"fastcode": str(pg._fastcode)[:40], "chunks": len(pg._code.chunks)})
                 cb = sub.callback
                 snap = {n: closure_var(cb, n) for n in ("orig_code", "orig_storage", "orig_transient_storage", "orig_balance")}
                 ctx.oblige("snapshot equals the state before the creation (no new account, endowment not yet moved)", z3.BoolVal(storage_fingerprint(snap["orig_storage"]) == pre.storage and [str(k) for k in snap["orig_code"]] == pre.code_keys and snap["orig_balance"] is pre.balance))
